@@ -366,4 +366,10 @@ theorem C13_computed_key_not_constant (as las kas cas : List String) (e v : Node
 /-- … in particular `{ [x]: false }` with a variable `x` is not constant. -/
 example : isConstant (.mk .object [] [nList [nKV (nComputed (nIdent "x" "u")) (nBool false)]]) = false := by decide
 
+/-- Only the GLOBAL `undefined` is a constant: an identifier of that name with a local binding (a parameter, a variable) is not
+    (fix 417795b: a shadowed `undefined` was left out of the dynamic-prop list). -/
+theorem C13_only_global_undefined_is_constant (b : String) (r : List String) (ks : List Node) :
+    isConstant (.mk .ident ("undefined" :: b :: r) ks) = (b == "u") := by
+  rw [isConstant] <;> simp
+
 end VueJsx
